@@ -465,7 +465,7 @@ Proof.
   destruct ok.
   - apply (cons_answered _ _ _ q r (fun x => s_setsubs x ((i_name (c_inst c i), i) :: s_subs x)) COk); auto using g_setsubs;
       [unfold queuedN; simpl; lia| |]; sess_eq.
-  - apply (cons_answered _ _ _ q r (fun x => x) CDenied); auto using g_id; [unfold queuedN; simpl; lia| |]; sess_eq.
+  - apply (cons_answered _ _ _ q r (fun x => x) (if aC then CUseOther else CDenied)); auto using g_id; [unfold queuedN; simpl; lia| |]; sess_eq.
 Qed.
 
 Definition dels_init (c : config) : Prop := forall r, In (HDel r) (c_hunreg c) -> r_init r = true.
